@@ -288,6 +288,8 @@ def tigerxml(tree, stream, **params):
     for terminal in trees.terminals(tree):
         stream.write(u"    <t id=\"%d\" " % terminal.data['num'])
         for field in ['word', 'lemma', 'label', 'morph']:
+            if terminal.data[field] is None:
+                terminal.data[field] = u"--"
             terminal.data[field] = quoteattr(terminal.data[field])
         stream.write(u"%s=%s " % ('word', terminal.data['word']))
         stream.write(u"%s=%s " % ('lemma', terminal.data['lemma']))
@@ -302,6 +304,8 @@ def tigerxml(tree, stream, **params):
                          % (subtree.data['num'],
                             quoteattr(subtree.data['label'])))
             for child in trees.children(subtree):
+                if child.data['edge'] is None:
+                    child.data['edge'] = trees.DEFAULT_EDGE
                 stream.write(u"      <edge label=%s idref=\"%d\" />\n"
                              % (quoteattr(child.data['edge']),
                                 child.data['num']))
